@@ -233,6 +233,7 @@ func runCase(c *kit.Case) {
 		}
 	}
 
+	c.Logf("t generated %v", w.Now())
 	// ---- node and server
 	node, _ := w.NewNode(centrifuge.Config{ClientQueueMaxSize: 64 << 20}, func(n *centrifuge.Node) {
 		n.OnTransportWrite(func(cl *centrifuge.Client, e centrifuge.TransportWriteEvent) bool {
@@ -325,6 +326,7 @@ func runCase(c *kit.Case) {
 		}
 	}
 
+	c.Logf("t prepublished %v", w.Now())
 	// ---- connect
 	for _, cs := range s.specs {
 		creq := &protocol.ConnectRequest{Name: cs.name}
@@ -374,6 +376,7 @@ func runCase(c *kit.Case) {
 			_ = resp.Body.Close()
 		}(cs, req)
 	}
+	c.Logf("t requests launched %v", w.Now())
 	ready := waitFor(func() bool {
 		for _, cs := range s.specs {
 			if cs.client.Load() == nil {
@@ -388,6 +391,7 @@ func runCase(c *kit.Case) {
 		return
 	}
 
+	c.Logf("t connected %v", w.Now())
 	// ---- run the script
 	others := map[string]*kit.Conn{}
 	for _, st := range script {
@@ -428,6 +432,7 @@ func runCase(c *kit.Case) {
 		case "pause":
 			time.Sleep(st.D)
 		}
+		c.Logf("t step %s %v", st.Op, w.Now())
 	}
 	for _, oc := range others {
 		_ = oc.CloseFn()
@@ -445,6 +450,7 @@ func runCase(c *kit.Case) {
 			}
 		}
 	}
+	c.Logf("t script done %v", w.Now())
 	allDone := true
 	for _, cs := range s.specs {
 		select {
@@ -458,7 +464,9 @@ func runCase(c *kit.Case) {
 		cleanup()
 		return
 	}
+	c.Logf("t streams ended %v", w.Now())
 	cleanup()
+	c.Logf("t cleaned up %v", w.Now())
 
 	// ---- evaluate
 	var sigs []string
